@@ -2,10 +2,19 @@ package cyclist
 
 // C13 — the Cyclist duplex matches its specification (independent reference
 // anchored to the published XKCP transcript and to SHA-3) and stays in sync.
+//
+// A program is pure data (c13Case). It is resolved into a plan (effective
+// operation kinds, operand bytes), the plan is executed on the real object(s)
+// (c13Real) and on the reference (c13Want), and the two traces are compared
+// (c13Compare). Keeping the three steps apart lets the concurrent test run
+// nothing but real duplex calls between its start barrier and its end.
 
 import (
 	"bytes"
 	"fmt"
+	"runtime"
+	"sync"
+	"sync/atomic"
 	"testing"
 
 	"pgregory.net/rapid"
@@ -14,10 +23,16 @@ import (
 )
 
 type c13Op struct {
-	Kind    int    `json:"k"` // 0 absorb 1 squeeze 2 encrypt 3 decrypt 4 squeezekey 5 ratchet
+	Kind    int    `json:"k"` // 0 absorb 1 squeeze 2 encrypt 3 decrypt 4 squeezekey 5 ratchet 6 initialize again
 	Len     int    `json:"n"`
 	Seed    uint64 `json:"s"`
 	InPlace bool   `json:"ip,omitempty"`
+	// kind 6 only: the object is re-initialised in the middle of the program.
+	// KeyLen 0 => hash mode (InitializeEmpty, or Initialize with an empty key if UseInit).
+	KeyLen  int  `json:"kl,omitempty"`
+	IDLen   int  `json:"il,omitempty"`
+	CtrLen  int  `json:"cl,omitempty"`
+	UseInit bool `json:"ui,omitempty"`
 }
 
 type c13Case struct {
@@ -30,159 +45,292 @@ type c13Case struct {
 	CloneAt int     `json:"cloneat"`
 }
 
-var c13Names = []string{"absorb", "squeeze", "encrypt", "decrypt", "squeezekey", "ratchet"}
+const c13Init = 6
 
-func c13Run(c c13Case, v *vlib.Verdict) {
-	key := vlib.Fill(c.Seed, c.KeyLen)
-	id := vlib.Fill(c.Seed+1, c.IDLen)
-	ctr := vlib.Fill(c.Seed+2, c.CtrLen)
-	keyed := c.KeyLen > 0
-	var a Cyclist
-	if keyed || c.UseInit {
-		a.Initialize(key, id, ctr)
-	} else {
-		a.InitializeEmpty()
+var c13Names = []string{"absorb", "squeeze", "encrypt", "decrypt", "squeezekey", "ratchet", "initialize"}
+
+// c13Step is one resolved operation of a plan.
+type c13Step struct {
+	kind         int  // effective kind (hash mode maps the keyed-only kinds onto absorb/squeeze)
+	keyed        bool // mode in which the operation runs (for kind 6: the mode it establishes)
+	n            int
+	in           []byte // operand of absorb / encrypt / decrypt
+	inPlace      bool
+	key, id, ctr []byte // kind 6
+	useInit      bool   // kind 6
+}
+
+type c13Plan struct {
+	init    c13Step // the initialisation (a kind-6 step)
+	steps   []c13Step
+	cloneAt int
+}
+
+func c13InitStep(keyLen, idLen, ctrLen int, seed uint64, useInit bool) c13Step {
+	return c13Step{kind: c13Init, keyed: keyLen > 0, key: vlib.Fill(seed, keyLen), id: vlib.Fill(seed+1, idLen),
+		ctr: vlib.Fill(seed+2, ctrLen), useInit: useInit}
+}
+
+func c13MakePlan(c c13Case) c13Plan {
+	p := c13Plan{init: c13InitStep(c.KeyLen, c.IDLen, c.CtrLen, c.Seed, c.UseInit), cloneAt: c.CloneAt}
+	keyed := p.init.keyed
+	for _, op := range c.Ops {
+		if op.Kind == c13Init {
+			st := c13InitStep(op.KeyLen, op.IDLen, op.CtrLen, op.Seed, op.UseInit)
+			keyed = st.keyed
+			p.steps = append(p.steps, st)
+			continue
+		}
+		k := op.Kind
+		if !keyed && k >= 2 {
+			k %= 2
+		}
+		st := c13Step{kind: k, keyed: keyed, n: op.Len, inPlace: op.InPlace}
+		if k == 0 || k == 2 || k == 3 {
+			st.in = vlib.Fill(op.Seed, op.Len)
+		}
+		p.steps = append(p.steps, st)
 	}
-	var r *ref.RefCyclist
-	if keyed {
-		r = ref.NewRef(key, id, ctr)
+	return p
+}
+
+// c13Out is what one operation produced: out on the object itself, peer on its
+// clone (squeeze kinds: the clone's own output; encrypt: the clone's decryption
+// of the ciphertext; decrypt: the clone's re-encryption of the plaintext).
+type c13Out struct{ out, peer []byte }
+
+type c13Trace struct {
+	outs       []c13Out
+	tagA, tagB []byte
+}
+
+func (st *c13Step) initReal(x *Cyclist) {
+	if st.keyed || st.useInit {
+		x.Initialize(st.key, st.id, st.ctr)
 	} else {
-		r = ref.NewRef(nil, nil, nil)
+		x.InitializeEmpty()
 	}
-	var b Cyclist
+}
+
+// c13Real executes the plan on a fresh real object (and on its clone from cloneAt on).
+func c13Real(p *c13Plan) c13Trace {
+	var a, b Cyclist
+	p.init.initReal(&a)
 	cloned := false
-	kinds := map[int]bool{}
-	boundary := false
-	for i, op := range c.Ops {
-		if i == c.CloneAt {
+	tr := c13Trace{outs: make([]c13Out, len(p.steps))}
+	for i := range p.steps {
+		st := &p.steps[i]
+		if i == p.cloneAt {
 			b = a // plain struct copy: same state
 			cloned = true
 		}
-		if !keyed && op.Kind >= 2 {
-			op.Kind %= 2
-		}
-		kinds[op.Kind] = true
-		if op.Kind != 5 && (op.Len == 0 || op.Len >= 136) {
-			boundary = true
-		}
-		in := vlib.Fill(op.Seed, op.Len)
-		var got, want, gotB []byte
-		fail := func(what string) {
-			v.Failf("C13:"+what+":"+c13Names[op.Kind], "op %d %s len %d (keyed=%v): got %x want %x", i, c13Names[op.Kind], op.Len, keyed, trunc(got), trunc(want))
-		}
-		switch op.Kind {
+		o := &tr.outs[i]
+		switch st.kind {
 		case 0:
-			a.Absorb(in)
-			r.Absorb(in)
+			a.Absorb(st.in)
 			if cloned {
-				b.Absorb(in)
+				b.Absorb(st.in)
 			}
-		case 1:
-			got = make([]byte, op.Len)
-			a.Squeeze(got)
-			want = r.Squeeze(op.Len)
+		case 1, 4:
+			o.out = make([]byte, st.n)
 			if cloned {
-				gotB = make([]byte, op.Len)
-				b.Squeeze(gotB)
+				o.peer = make([]byte, st.n)
 			}
-		case 2:
-			want = r.Encrypt(in)
-			if op.InPlace {
-				got = append([]byte(nil), in...)
-				a.Encrypt(got, got)
+			if st.kind == 1 {
+				a.Squeeze(o.out)
+				if cloned {
+					b.Squeeze(o.peer)
+				}
 			} else {
-				got = make([]byte, op.Len)
-				a.Encrypt(got, in)
-			}
-			if cloned {
-				// the peer decrypts what A produced
-				p := make([]byte, op.Len)
-				b.Decrypt(p, got)
-				if !bytes.Equal(p, in) {
-					got, want = p, in
-					fail("sync-decrypt-mismatch")
-					return
+				a.SqueezeKey(o.out)
+				if cloned {
+					b.SqueezeKey(o.peer)
 				}
 			}
-		case 3:
-			want = r.Decrypt(in)
-			if op.InPlace {
-				got = append([]byte(nil), in...)
-				a.Decrypt(got, got)
+		case 2, 3:
+			if st.inPlace {
+				o.out = append([]byte(nil), st.in...)
 			} else {
-				got = make([]byte, op.Len)
-				a.Decrypt(got, in)
+				o.out = make([]byte, st.n)
 			}
-			if cloned {
-				// the peer encrypts the plaintext A obtained: must reproduce the ciphertext
-				ct := make([]byte, op.Len)
-				b.Encrypt(ct, got)
-				if !bytes.Equal(ct, in) {
-					got, want = ct, in
-					fail("sync-encrypt-mismatch")
-					return
+			src := st.in
+			if st.inPlace {
+				src = o.out
+			}
+			if st.kind == 2 {
+				a.Encrypt(o.out, src)
+				if cloned { // the peer decrypts what A produced
+					o.peer = make([]byte, st.n)
+					b.Decrypt(o.peer, o.out)
 				}
-			}
-		case 4:
-			got = make([]byte, op.Len)
-			a.SqueezeKey(got)
-			want = r.SqueezeKey(op.Len)
-			if cloned {
-				gotB = make([]byte, op.Len)
-				b.SqueezeKey(gotB)
+			} else {
+				a.Decrypt(o.out, src)
+				if cloned { // the peer encrypts the plaintext A obtained: must reproduce the ciphertext
+					o.peer = make([]byte, st.n)
+					b.Encrypt(o.peer, o.out)
+				}
 			}
 		case 5:
 			a.Ratchet()
-			r.Ratchet()
 			if cloned {
 				b.Ratchet()
 			}
-		}
-		if !bytes.Equal(got, want) {
-			fail("output-differs-from-spec")
-			return
-		}
-		if gotB != nil && !bytes.Equal(gotB, got) {
-			want = gotB
-			fail("peers-out-of-sync")
-			return
+		case c13Init:
+			st.initReal(&a)
+			if cloned {
+				st.initReal(&b)
+			}
 		}
 	}
-	// final tags of A, the reference and the clone must agree
-	ta := make([]byte, 32)
-	a.Squeeze(ta)
-	if w := r.Squeeze(32); !bytes.Equal(ta, w) {
-		v.Failf("C13:output-differs-from-spec:final-squeeze", "final tag %x, reference %x", ta, w)
+	tr.tagA = make([]byte, 32)
+	a.Squeeze(tr.tagA)
+	if cloned {
+		tr.tagB = make([]byte, 32)
+		b.Squeeze(tr.tagB)
+	}
+	return tr
+}
+
+func (st *c13Step) initRef() *ref.RefCyclist {
+	if st.keyed {
+		return ref.NewRef(st.key, st.id, st.ctr)
+	}
+	return ref.NewRef(nil, nil, nil)
+}
+
+// c13Want computes the specified outputs. Initialising again is, by the
+// documentation of Initialize / InitializeEmpty ("resets a Cyclist object to
+// an initial state" / "to the empty state"), the same as starting over: the
+// reference simply creates a fresh instance.
+func c13Want(p *c13Plan) c13Trace {
+	r := p.init.initRef()
+	tr := c13Trace{outs: make([]c13Out, len(p.steps))}
+	for i := range p.steps {
+		st := &p.steps[i]
+		o := &tr.outs[i]
+		switch st.kind {
+		case 0:
+			r.Absorb(st.in)
+		case 1:
+			o.out = r.Squeeze(st.n)
+			o.peer = o.out
+		case 2:
+			o.out = r.Encrypt(st.in)
+			o.peer = st.in
+		case 3:
+			o.out = r.Decrypt(st.in)
+			o.peer = st.in
+		case 4:
+			o.out = r.SqueezeKey(st.n)
+			o.peer = o.out
+		case 5:
+			r.Ratchet()
+		case c13Init:
+			r = st.initRef()
+		}
+	}
+	tr.tagA = r.Squeeze(32)
+	tr.tagB = tr.tagA
+	return tr
+}
+
+// c13Diff is the first oracle clause a real trace fails ("" = none).
+type c13Diff struct{ what, op, detail string }
+
+func (d c13Diff) sig() string { return "C13:" + d.what + ":" + d.op }
+
+func c13Compare(p *c13Plan, got, want *c13Trace) c13Diff {
+	for i := range p.steps {
+		st := &p.steps[i]
+		g, w := &got.outs[i], &want.outs[i]
+		cloned := i >= p.cloneAt
+		name := c13Names[st.kind]
+		mk := func(what string, a, b []byte) c13Diff {
+			return c13Diff{what, name, fmt.Sprintf("op %d %s len %d (keyed=%v): got %x want %x", i, name, st.n, st.keyed, trunc(a), trunc(b))}
+		}
+		if cloned && st.kind == 2 && !bytes.Equal(g.peer, st.in) {
+			return mk("sync-decrypt-mismatch", g.peer, st.in)
+		}
+		if cloned && st.kind == 3 && !bytes.Equal(g.peer, st.in) {
+			return mk("sync-encrypt-mismatch", g.peer, st.in)
+		}
+		if !bytes.Equal(g.out, w.out) {
+			return mk("output-differs-from-spec", g.out, w.out)
+		}
+		if cloned && (st.kind == 1 || st.kind == 4) && !bytes.Equal(g.peer, g.out) {
+			return mk("peers-out-of-sync", g.out, g.peer)
+		}
+	}
+	if !bytes.Equal(got.tagA, want.tagA) {
+		return c13Diff{"output-differs-from-spec", "final-squeeze", fmt.Sprintf("final tag %x, reference %x", got.tagA, want.tagA)}
+	}
+	if got.tagB != nil && !bytes.Equal(got.tagA, got.tagB) {
+		return c13Diff{"peers-out-of-sync", "final-squeeze", fmt.Sprintf("final tag A %x, B %x", got.tagA, got.tagB)}
+	}
+	return c13Diff{}
+}
+
+// c13Classify: labels and the non-trivial rule of one program.
+func c13Classify(c c13Case, p *c13Plan, v *vlib.Verdict) (nonTrivial bool) {
+	kinds := map[int]bool{}
+	boundary, everKeyed, everHash, reinitDown := false, p.init.keyed, !p.init.keyed, false
+	for i := range p.steps {
+		st := &p.steps[i]
+		kinds[st.kind] = true
+		if st.kind != 5 && st.kind != c13Init && (st.n == 0 || st.n >= 136) {
+			boundary = true
+		}
+		if st.kind == c13Init {
+			if st.keyed {
+				everKeyed = true
+			} else {
+				everHash = true
+			}
+			if i > 0 {
+				switch p.steps[i-1].kind { // operations that leave the object in the down phase
+				case 0, 2, 3, 5:
+					reinitDown = true
+				}
+			}
+		}
+	}
+	if v != nil {
+		if everKeyed {
+			v.Label("keyed")
+		}
+		if everHash {
+			v.Label("hash")
+		}
+		if boundary {
+			v.Label("empty-or-multiblock-operand")
+		}
+		if p.cloneAt < len(p.steps) {
+			v.Label("with-peer-clone")
+		}
+		if c.CtrLen > 0 {
+			v.Label("counter")
+		}
+		if reinitDown {
+			v.Label("initialize-again-after-absorbing-op")
+		}
+		for k := range c13Names {
+			if kinds[k] {
+				v.Label("op:" + c13Names[k])
+			}
+		}
+	}
+	return boundary || (len(p.steps) >= 3 && len(kinds) >= 2)
+}
+
+func c13Run(c c13Case, v *vlib.Verdict) {
+	p := c13MakePlan(c)
+	want := c13Want(&p)
+	got := c13Real(&p)
+	if d := c13Compare(&p, &got, &want); d.what != "" {
+		v.Failf(d.sig(), "%s", d.detail)
 		return
 	}
-	if cloned {
-		tb := make([]byte, 32)
-		b.Squeeze(tb)
-		if !bytes.Equal(ta, tb) {
-			v.Failf("C13:peers-out-of-sync:final-squeeze", "final tag A %x, B %x", ta, tb)
-			return
-		}
-	}
-	v.NonTrivial = boundary || (len(c.Ops) >= 3 && len(kinds) >= 2)
-	if keyed {
-		v.Label("keyed")
-	} else {
-		v.Label("hash")
-	}
-	if boundary {
-		v.Label("empty-or-multiblock-operand")
-	}
-	if cloned {
-		v.Label("with-peer-clone")
-	}
-	if c.CtrLen > 0 {
-		v.Label("counter")
-	}
-	for k := range c13Names {
-		if kinds[k] {
-			v.Label("op:" + c13Names[k])
-		}
-	}
+	v.NonTrivial = c13Classify(c, &p, v)
 }
 
 func trunc(b []byte) []byte {
@@ -194,25 +342,38 @@ func trunc(b []byte) []byte {
 
 var c13Lens = []int{0, 1, 2, 31, 32, 33, 134, 135, 136, 137, 138, 271, 272, 273, 407, 408, 409, 1000}
 
+// c13InitGen draws an initialisation: (key, id, counter lengths, useInit).
+func c13InitGen(t *rapid.T) (keyLen, idLen, ctrLen int, useInit bool) {
+	if rapid.IntRange(0, 3).Draw(t, "keyed") > 0 {
+		keyLen = rapid.OneOf(rapid.IntRange(1, 135), rapid.SampledFrom([]int{1, 16, 32, 134, 135})).Draw(t, "keylen")
+		idLen = rapid.OneOf(rapid.IntRange(0, 135-keyLen), rapid.SampledFrom([]int{0, 135 - keyLen})).Draw(t, "idlen")
+		ctrLen = rapid.OneOf(rapid.Just(0), rapid.IntRange(0, 12), rapid.SampledFrom([]int{135, 136, 137, 300})).Draw(t, "ctrlen")
+	} else {
+		useInit = rapid.Bool().Draw(t, "useinit")
+	}
+	return
+}
+
+// kinds 0..5 twice, "initialize again" once: one operation in thirteen re-initialises the object
+var c13Kinds = []int{0, 1, 2, 3, 4, 5, 0, 1, 2, 3, 4, 5, c13Init}
+
 func c13Gen(t *rapid.T) c13Case {
 	var c c13Case
 	c.Seed = rapid.Uint64().Draw(t, "seed")
-	if rapid.IntRange(0, 3).Draw(t, "keyed") > 0 {
-		c.KeyLen = rapid.OneOf(rapid.IntRange(1, 135), rapid.SampledFrom([]int{1, 16, 32, 134, 135})).Draw(t, "keylen")
-		c.IDLen = rapid.OneOf(rapid.IntRange(0, 135-c.KeyLen), rapid.SampledFrom([]int{0, 135 - c.KeyLen})).Draw(t, "idlen")
-		c.CtrLen = rapid.OneOf(rapid.Just(0), rapid.IntRange(0, 12), rapid.SampledFrom([]int{135, 136, 137, 300})).Draw(t, "ctrlen")
-	} else {
-		c.UseInit = rapid.Bool().Draw(t, "useinit")
-	}
+	c.KeyLen, c.IDLen, c.CtrLen, c.UseInit = c13InitGen(t)
 	opGen := rapid.Custom(func(t *rapid.T) c13Op {
 		var o c13Op
-		o.Kind = rapid.IntRange(0, 5).Draw(t, "kind")
+		o.Kind = rapid.SampledFrom(c13Kinds).Draw(t, "kind")
+		o.Seed = rapid.Uint64().Draw(t, "oseed")
+		if o.Kind == c13Init {
+			o.KeyLen, o.IDLen, o.CtrLen, o.UseInit = c13InitGen(t)
+			return o
+		}
 		if rapid.Bool().Draw(t, "edge") {
 			o.Len = rapid.SampledFrom(c13Lens).Draw(t, "elen")
 		} else {
 			o.Len = rapid.IntRange(0, 600).Draw(t, "len")
 		}
-		o.Seed = rapid.Uint64().Draw(t, "oseed")
 		// InPlace stays false: aliasing dst and src is neither claimed by C13 nor
 		// done by any caller in the repository (see DESIGN.md, C13).
 		return o
@@ -236,7 +397,8 @@ func TestVerifC13Programs(t *testing.T) {
 }
 
 // TestVerifC13Boundaries enumerates single-operation programs for every operand
-// length 0..410 in both modes (every position relative to the 136-byte rate).
+// length 0..410 in both modes (every position relative to the 136-byte rate),
+// and every (mode, last operation, way of initialising again) combination.
 func TestVerifC13Boundaries(t *testing.T) {
 	c13SelfTest(t)
 	run := func(c c13Case, v *vlib.Verdict) { vlib.Guard(v, func() { c13Run(c, v) }) }
@@ -262,6 +424,140 @@ func TestVerifC13Boundaries(t *testing.T) {
 			}
 		}
 	}
+	single := idx
+	// initialise again after every kind of last operation (so in either phase), from either mode, in every way
+	reinits := []c13Op{{Kind: c13Init}, {Kind: c13Init, UseInit: true}, {Kind: c13Init, KeyLen: 16}, {Kind: c13Init, KeyLen: 32, IDLen: 7},
+		{Kind: c13Init, KeyLen: 32, IDLen: 7, CtrLen: 3}, {Kind: c13Init, KeyLen: 100, IDLen: 35, CtrLen: 137}}
+	for keyLen := 0; keyLen <= 32; keyLen += 32 {
+		for kind := -1; kind <= 5; kind++ { // -1: initialise again straight after the initialisation
+			if keyLen == 0 && kind >= 2 {
+				continue
+			}
+			for _, n := range []int{0, 5, 136, 137} {
+				if (kind == 5 || kind == -1) && n != 0 {
+					continue
+				}
+				for ri, re := range reinits {
+					idx++
+					if !rec.Mine(idx) {
+						continue
+					}
+					re.Seed = uint64(1000 + ri)
+					c := c13Case{KeyLen: keyLen, IDLen: keyLen / 8, Seed: uint64(n) + 5}
+					if kind >= 0 {
+						c.Ops = append(c.Ops, c13Op{Kind: kind, Len: n, Seed: uint64(n) + 31})
+					}
+					// afterwards: keyed-only kinds fall back to absorb/squeeze if the new mode is hash
+					c.Ops = append(c.Ops, re, c13Op{Kind: 2, Len: 20, Seed: 4}, c13Op{Kind: 0, Len: 3, Seed: 5}, c13Op{Kind: 4, Len: 16})
+					c.CloneAt = len(c.Ops) - 3
+					if !vlib.Each(t, rec, c, run) {
+						return
+					}
+				}
+			}
+		}
+	}
 	rec.SetExhaustive(true)
-	rec.Extra("enumerated", fmt.Sprintf("every operand length 0..410 for each operation kind, hash and keyed mode (%d programs)", idx))
+	rec.Extra("enumerated", fmt.Sprintf("every operand length 0..410 for each operation kind, hash and keyed mode (%d programs); "+
+		"every (mode, last operation, operand length in {0,5,136,137}, way of initialising again) combination (%d programs)", single, idx-single))
+}
+
+// ---------------------------------------------------------------------------
+// Concurrent dimension: independent objects must not influence each other.
+//
+// A Cyclist value has no documented sharing between instances (the handshake
+// code keeps one duplex per handshake and a server runs many handshakes at the
+// same time), so several goroutines that each work on objects of their OWN
+// must each obtain exactly the specified outputs. Each goroutine runs its own
+// generated program Reps times (always on fresh objects) after a common start
+// barrier; every repetition is compared with the reference trace computed
+// beforehand. A repetition that deviates is run once more with nothing else
+// running: if it deviates again the defect is sequential and is reported under
+// the sequential signature, otherwise under independent-objects-interfere.
+
+type c13ConcCase struct {
+	Progs []c13Case `json:"progs"` // one program per goroutine
+	Reps  int       `json:"reps"`
+}
+
+func c13ConcRun(c c13ConcCase, v *vlib.Verdict) {
+	g := len(c.Progs)
+	plans := make([]c13Plan, g)
+	wants := make([]c13Trace, g)
+	for i := range c.Progs {
+		plans[i] = c13MakePlan(c.Progs[i])
+		wants[i] = c13Want(&plans[i])
+	}
+	reps := c.Reps
+	if reps < 1 {
+		reps = 1
+	}
+	traces := make([][]c13Trace, g)
+	verdicts := make([]vlib.Verdict, g)
+	var arrived atomic.Int32
+	var wg sync.WaitGroup
+	for i := 0; i < g; i++ {
+		traces[i] = make([]c13Trace, 0, reps)
+		wg.Add(1)
+		go func(i int) {
+			defer wg.Done()
+			vlib.Guard(&verdicts[i], func() {
+				arrived.Add(1)
+				for int(arrived.Load()) < g { // start barrier
+					runtime.Gosched()
+				}
+				for r := 0; r < reps; r++ {
+					traces[i] = append(traces[i], c13Real(&plans[i]))
+				}
+			})
+		}(i)
+	}
+	wg.Wait()
+	for i := 0; i < g; i++ {
+		if !verdicts[i].OK() { // a panic in goroutine i
+			v.Violations = append(v.Violations, verdicts[i].Violations...)
+			return
+		}
+		for r := range traces[i] {
+			d := c13Compare(&plans[i], &traces[i][r], &wants[i])
+			if d.what == "" {
+				continue
+			}
+			solo := c13Real(&plans[i])
+			if sd := c13Compare(&plans[i], &solo, &wants[i]); sd.what != "" {
+				v.Failf(sd.sig(), "program %d also fails when run alone: %s", i, sd.detail)
+				return
+			}
+			v.Failf("C13:independent-objects-interfere:"+d.op, "program %d of %d (repetition %d) deviates only while the other goroutines work on objects of their own (%s): %s", i, g, r, d.what, d.detail)
+			return
+		}
+	}
+	nt := 0
+	crypting := 0
+	for i := range c.Progs {
+		if c13Classify(c.Progs[i], &plans[i], nil) {
+			nt++
+		}
+		for _, st := range plans[i].steps {
+			if st.kind == 2 || st.kind == 3 {
+				crypting++
+				break
+			}
+		}
+	}
+	v.NonTrivial = g >= 2 && nt >= 2
+	v.Labelf("goroutines:%d", g)
+	if crypting >= 2 {
+		v.Label("concurrent-encrypt-or-decrypt")
+	}
+}
+
+func TestVerifC13Concurrent(t *testing.T) {
+	c13SelfTest(t)
+	vlib.Drive(t, vlib.Spec[c13ConcCase]{ID: "C13", Quick: 4000, Run: c13ConcRun, Gen: func(t *rapid.T) c13ConcCase {
+		return c13ConcCase{
+			Progs: rapid.SliceOfN(rapid.Custom(c13Gen), 2, 4).Draw(t, "progs"),
+			Reps:  rapid.IntRange(1, 6).Draw(t, "reps"),
+		}
+	}})
 }
